@@ -67,6 +67,10 @@ type Case struct {
 	// the case shows; never generated, only used by the regression replays replays/C20/race-*.json.
 	Unguard bool `json:"unguard,omitempty"`
 
+	// IssMode: how the shared provider derives its issuer: "" op.StaticIssuer, "host" op.IssuerFromHost, "fwd" op.IssuerFromForwardedOrHost
+	// (every request of a case names the same host, so the issuer is the same in all three)
+	IssMode string `json:"iss_mode,omitempty"`
+
 	// URLParams: number (0..3) of static URLParamOpts the ONE shared AuthURLHandler / CodeExchangeHandler are built with
 	URLParams int `json:"url_params,omitempty"`
 
@@ -186,6 +190,7 @@ func genConc(t *rapid.T) Case {
 	c.SignAlg = rapid.SampledFrom([]string{"ES256", "ES256", "ES256", "RS256", "EdDSA"}).Draw(t, "alg")
 	c.JWTAT = rapid.Bool().Draw(t, "jwt_at")
 	c.URLParams = rapid.IntRange(0, 3).Draw(t, "url_params")
+	c.IssMode = rapid.SampledFrom([]string{"", "", "host", "fwd"}).Draw(t, "iss_mode")
 	c.Sync = rapid.Bool().Draw(t, "lockstep")
 	c.Cold = rapid.IntRange(0, 2).Draw(t, "cold") == 0
 	if c.Cold {
@@ -284,8 +289,15 @@ func conClients(c Case) []*vkit.ClientSpec {
 	}
 }
 
-func buildSUT(router, alg string, storage op.Storage) (*vkit.SUT, error) {
-	p, err := op.NewProvider(newConfig(), storage, op.StaticIssuer(issuer), baseOpts(alg)...)
+func buildSUT(router, alg, issMode string, storage op.Storage) (*vkit.SUT, error) {
+	issuerFn := op.StaticIssuer(issuer)
+	switch issMode {
+	case "host":
+		issuerFn = op.IssuerFromHost("")
+	case "fwd":
+		issuerFn = op.IssuerFromForwardedOrHost("")
+	}
+	p, err := op.NewProvider(newConfig(), storage, issuerFn, baseOpts(alg)...)
 	if err != nil {
 		return nil, err
 	}
@@ -316,7 +328,7 @@ func newEnv(c Case) (*env, error) {
 		router = "provider"
 	}
 	var err error
-	if e.sut, err = buildSUT(router, alg, e.ps); err != nil {
+	if e.sut, err = buildSUT(router, alg, c.IssMode, e.ps); err != nil {
 		return nil, err
 	}
 	for k := 0; k <= len(c.Progs); k++ {
@@ -537,6 +549,25 @@ func (e *env) doOp(o Op, tag string, part int, sync func()) (msg string) {
 	}
 	switch o.K {
 	case "disc":
+		if e.c.IssMode == "host" || e.c.IssMode == "fwd" {
+			// a provider that derives its issuer from the request is asked under several names at once (discovery does not
+			// touch the storage, so the request needs no partition)
+			var hdr http.Header
+			alias := *ag
+			alias.Forwarded = ""
+			want := fmt.Sprintf("https://t%d.op.example.com", o.A)
+			if e.c.IssMode == "fwd" && o.B&1 == 1 {
+				hdr = http.Header{"Forwarded": {fmt.Sprintf("host=t%d.op.example.com", o.A)}}
+			} else {
+				alias.Host = fmt.Sprintf("t%d.op.example.com", o.A)
+			}
+			sync()
+			r := alias.Get(oidc.DiscoveryEndpoint, nil, hdr)
+			if !r.Success() || r.Str("issuer") != want || r.Str("token_endpoint") != want+defaultPaths["token"] {
+				return fmt.Sprintf("want issuer %s: %s", want, r.Describe())
+			}
+			return ""
+		}
 		r := ag.Discovery()
 		if !r.Success() || r.Str("issuer") != issuer || r.Str("token_endpoint") != issuer+defaultPaths["token"] || r.Str("authorization_endpoint") != issuer+defaultPaths["authorization"] {
 			return r.Describe()
@@ -1089,7 +1120,7 @@ type opResult struct {
 
 func runConc(c Case) *vkit.Result {
 	res := &vkit.Result{}
-	res.Label("kind:conc", "router:"+c.Router, "alg:"+c.SignAlg, fmt.Sprintf("jwt_at:%v", c.JWTAT), fmt.Sprintf("goroutines:%d", len(c.Progs)), fmt.Sprintf("lockstep:%v", c.Sync), fmt.Sprintf("cold:%v", c.Cold), fmt.Sprintf("handler-url-params:%d", c.URLParams))
+	res.Label("kind:conc", "router:"+c.Router, "alg:"+c.SignAlg, fmt.Sprintf("jwt_at:%v", c.JWTAT), fmt.Sprintf("goroutines:%d", len(c.Progs)), fmt.Sprintf("lockstep:%v", c.Sync), fmt.Sprintf("cold:%v", c.Cold), fmt.Sprintf("handler-url-params:%d", c.URLParams), "issuer-mode:"+map[string]string{"": "static", "host": "host", "fwd": "forwarded"}[c.IssMode])
 	e, err := newEnv(c)
 	if err != nil {
 		res.Fail("C20:setup", "environment could not be built: %v", err)
@@ -1206,6 +1237,12 @@ func runConc(c Case) *vkit.Result {
 				case strings.HasPrefix(seqMsg, "PANIC"):
 					res.Fail("C20:panic@"+seqMsg[strings.LastIndex(seqMsg, "@")+1:], "goroutine %d op %d (%+v) run alone: %s", r.g, r.i, r.op, seqMsg)
 				case seqObs != r.obs:
+					// is the answer a function of the request at all? (a refusal that quotes the clock is not)
+					if _, again := e.doOpObs(r.op, fmt.Sprintf("g%d-o%d", r.g, r.i), 0, func() {}); again != seqObs {
+						res.Label("twin:answer-varies-when-alone:" + r.op.K)
+						res.Grey = true
+						continue
+					}
 					res.Fail("C20:concurrent-answer-differs:"+r.op.K, "goroutine %d op %d (%+v) was answered differently under concurrency than the same request run alone afterwards: concurrent: %s // alone: %s", r.g, r.i, r.op, r.obs, seqObs)
 				case r.msg == "":
 					res.Label("answer:as-expected-of-a-run-alone", "twin:same-answer-alone")
@@ -1255,7 +1292,7 @@ func runConc(c Case) *vkit.Result {
 	sort.Strings(ks)
 	sort.Strings(ps)
 	res.NonTrivial = len(c.Progs) >= 2 && total >= 4
-	res.Key = fmt.Sprintf("conc|%s|%s|%v|%v|%v|%d|%s", c.Router, c.SignAlg, c.JWTAT, c.Sync, c.Cold, len(c.Progs), strings.Join(ps, ","))
+	res.Key = fmt.Sprintf("conc|%s|%s|%s|%v|%v|%v|%d|%s", c.Router, c.SignAlg, c.IssMode, c.JWTAT, c.Sync, c.Cold, len(c.Progs), strings.Join(ps, ","))
 	res.Info = map[string]any{"ops": total, "kinds": ks, "guards": map[string]bool{"checkredirect": e.guardCR, "getaudience": e.guardAud}, "failed_alone_too": alsoAlone}
 	return res
 }
@@ -1286,7 +1323,7 @@ const rule = "conc: G in 2..8 goroutines x 2..15 ops (44 kinds: authorize/login/
 	"gets when run alone afterwards (twin run: status, redirect target, every delivered parameter, body); CodeExchange, Userinfo, RefreshTokens, EndSession, RevokeToken, VerifyTokens, " +
 	"ClientCredentials, device calls, ONE AuthURLHandler and ONE CodeExchangeHandler(UserinfoCallback), rs.Introspect (secret and JWT profile), ExchangeToken, remote key set, JWT-profile token source, " +
 	"Discover through a redirect on ONE RP / RS / exchanger / key set / token source over ONE caller-supplied http.Client, in-process transport) in the -race binary; " +
-	"free or lock-step schedule, warm or cold (nothing touches the provider before the goroutines start), independent or identical programs; " +
+	"free or lock-step schedule, warm or cold (nothing touches the provider before the goroutines start), independent or identical programs, issuer static / from Host / from Forwarded-or-Host; " +
 	"order: 2..12 steps of constructing providers (8 endpoint options, bulk option, both routers, issuer strategy StaticIssuer / IssuerFromHost / IssuerFromForwardedOrHost without and with " +
 	"WithIssuerFromCustomHeaders(1..2 names of 6 spellings), wrapper constructors, default / caller-supplied / no CORS options), issuer functions on their own (the same strategies, path, allowInsecure), " +
 	"RPs (OIDC / OAuth), resource servers, token exchangers with the package default or a shared caller-supplied http.Client, and calls on them, with a deep snapshot (package-level defaults, supplied clients, " +
